@@ -130,8 +130,10 @@ DoReadyOff(s) ==
 (* tombstone of its service, id = instance name                             *)
 CanFinish(s, c) == /\ Live(s, c) /\ c.i \in DOMAIN s.running /\ s.running[c.i] = c
                    /\ ~Finished(s, c)
+(* m = "none": the container's service is killed without leaving any of the  *)
+(* markers (MonitorContainerCleanup flags `aborted` only for signal 6)       *)
 DoFinish(s, c, m) ==
-  [s EXCEPT !.apps[c] = @ \cup {m}, !.tomb = @ \cup {c}]
+  [s EXCEPT !.apps[c] = @ \cup (IF m = "none" THEN {} ELSE {m}), !.tomb = @ \cup {c}]
 
 (* monitor.MonitorContainerCleanup.execute({'id': instance}):               *)
 (*   fs.replace(running/<instance>, cleanup/<instance>), ENOENT tolerated   *)
@@ -474,7 +476,7 @@ Next ==
   \/ \E a \in Instances : CacheDelete(a)
   \/ ReadyOn
   \/ ReadyOff
-  \/ \E c \in AllConts, m \in FinMarkers : ContainerFinishes(c, m)
+  \/ \E c \in AllConts, m \in FinMarkers \cup {"none"} : ContainerFinishes(c, m)
   \/ \E c \in AllConts : MonitorCleanup(c)
   \/ \E nm \in AllLinkNames : CleanupCompletes(nm)
   \/ ManagerRestart
